@@ -75,6 +75,13 @@ def packet_execute(case, stats):
     eq(bytes(got), plain + b"A" * npad, "decrypt:roundtrip", f"decrypt(encrypt(p)) for len {len(plain)} (padding {npad})")
     eq(bytes(lib(c2.decrypt_packet, pkt, aes, None, verify=False, **kw)), plain + b"A" * npad, "decrypt:noverify", "verify=False without hmac key")
     eq(bytes(lib(c2.pad, plain)), plain + b"A" * npad, "pad:value", "pad()")
+    # the session keys as one object (BeaconKeys = aes_key, hmac_key, iv), unpacked positionally or by name
+    keys = lib(c2.BeaconKeys, aes_key=aes, hmac_key=hk, iv=iv, what="BeaconKeys()")
+    eq(tuple(bytes(k) for k in keys), (aes, hk, iv), "keys:fields", "BeaconKeys field order (aes_key, hmac_key, iv)")
+    p2 = lib(c2.encrypt_packet, plain, *keys, what="encrypt_packet(plain, *keys)")
+    eq((bytes(p2.ciphertext), bytes(p2.signature)), (want_ct, R.sign(want_ct, hk)), "encrypt:positional_keys", "encrypt_packet(plain, *BeaconKeys)")
+    eq(bytes(lib(c2.decrypt_packet, pkt, *keys, what="decrypt_packet(pkt, *keys)")), plain + b"A" * npad, "decrypt:positional_keys", f"decrypt_packet(pkt, *BeaconKeys) with iv {iv!r}")
+    eq(bytes(lib(c2.decrypt_packet, pkt, **keys._asdict(), what="decrypt_packet(pkt, **keys)")), plain + b"A" * npad, "decrypt:keyword_keys", "decrypt_packet(pkt, **BeaconKeys._asdict())")
 
     # ---- fault enumeration
     ct, sig = bytes(pkt.ciphertext), bytes(pkt.signature)
